@@ -4250,6 +4250,7 @@ pub fn to_c_ident(name: &str) -> String {
         "register" => "register_".into(),
         "reinterpret_cast" => "reinterpret_cast_".into(),
         "requires" => "requires_".into(),
+        "restrict" => "restrict_".into(),
         "return" => "return_".into(),
         "short" => "short_".into(),
         "signed" => "signed_".into(),
